@@ -164,6 +164,12 @@ class Prop(PropBase):
             first = body if k % 2 == 0 else other       # the predecessor is the same stream, or another one with the same rpm
             rec.append('\n'.join([f'S c17_recreate_{t}_{k}'] + first + ['Z 0'] + body + ['E']))
         out.append(('recreate', '\n'.join(rec) + '\n'))
+        # two decoders of one process whose open frames are beyond (or at) the documented limit, hit by an MSOP-dispatched packet within
+        # the same second, one second and several seconds apart: the discard of an instance's frame must not depend on the other's
+        codes = [self.L[t].code for t in ('RSM1', 'RS16', 'RSHELIOS', 'RSM2')]
+        ks = [f'K overflow2 {a} {n1} {b} {n2} {dt}' for (a, b) in [(codes[0], codes[0]), (codes[0], codes[1]), (codes[2], codes[3])]
+              for (n1, n2) in [(1000001, 1000001), (1000000, 1000001), (1000001, 7)] for dt in (0, 1, 5)]
+        out.append(('kern_ovf', '\n'.join(ks) + '\n'))
         # concurrent feeding under TSan
         par = []
         pcombos = [('RSBP', 'RSBP'), ('RSP80', 'RSP80'), ('RS16', 'RS16'), ('RS128', 'RSM1'), ('RSHELIOS', 'RSHELIOS', 'RSE1')]
@@ -193,7 +199,19 @@ class Prop(PropBase):
         out.append(('par', '\n'.join(par) + '\n'))
         return out
 
+    def kernel_class(self, k):
+        return 'two-overflows'
+
+    def kernel_verdict(self, kline, impl, model, spec):
+        if impl != model:
+            t = kline.split()
+            return (f'with open frames of {t[3]} and {t[5]} points in two decoders of one process, {t[6]} s apart, the frames discarded were {impl[2:]} (first, second, first again); '
+                    f'each instance discards exactly when its own open frame holds more than 1,000,000 points: {model[2:]}')
+        return None
+
     def judge(self, bname, inp, impl_path, model_path, impl_log, violations, broken, stats):
+        if bname.startswith('kern'):
+            return self.judge_kernels(bname, inp, impl_path, model_path, violations, broken, stats)
         text = open(inp).read()
         impl = dict(CMP.split_scenarios(impl_path))
         model = dict(CMP.split_scenarios(model_path))
